@@ -313,11 +313,9 @@ class TypedPart:
                 cov["sanitizer_aborts"] = cov.get("sanitizer_aborts", 0) + 1
                 what = {"t": "printing the traits of", "b": "evaluating blocking(s) on", "d": "running"}[lines[k][0]]
                 if lines[k][0] == "b":
-                    # stable site: error kind + the first library header in the report
-                    import re
+                    # stable site: error kind + which algorithm's customisation is on the recursion path
                     kind = site.split(" in ")[0]
-                    hs = [h for h in re.findall(r"/include/unifex/([A-Za-z0-9_/]+\.hpp):\d+", err2) if h not in ("tag_invoke.hpp", "blocking.hpp")]
-                    site = f"blocking(s) aborts with {kind}" + (f" in {max(set(hs), key=hs.count)}" if hs else "")
+                    site = f"blocking(s) aborts with {kind}" + (" (let_done)" if "(dao" in exprs[i] else "")
                 verdict.add(f"{self.name}: {site}", f"the program aborted while {what} {exprs[i]}",
                             dict(stream=self.name, expr=exprs[i], command=lines[k], sanitizer_report=err2), found_input=True)
             for idx, (i, e) in enumerate(items):
